@@ -19,10 +19,10 @@ from fsa.consts import fold_class_const, folder
 from fsa.flow import LocalFlow, dominators, guards, must_pass
 from fsa.ftn import FSub, FUnit, parse_template
 from fsa.match import (Affine, Cmp, Unknown, affine, cmp_of, conj_atoms, convergence_test, dotted, is_call, is_const, kwarg, method_call,
-                       str_eq_test)
+                       str_eq_test, enum_value_ref)
 from fsa.source import AnchorMissing, Unsupported, iter_own_nodes, stmt_key, text
 from rules.common import Fn
-from rules.solver_common import expr
+from rules.solver_common import expr, series_stores
 from rules import c03
 
 FE = 'fsic.fortran.FortranEngine'
@@ -340,21 +340,96 @@ def r4_code_tables(R, unit: FUnit) -> None:
                 out |= assignable(n.func.id, seen)
         return out
 
+    # What each wrapper does with each error code is decided path-sensitively: the exploration is split by the value
+    # of the error-code local (every code the template defines, plus one it does not), of `errors`, and of the boolean
+    # results bound together with the code.  It does not matter whether the wrapper is an if/elif ladder, guard
+    # clauses or a mixture.
+    from fsa.flow import bound_on_edge, names_bound
+    from fsa.pathsens import Flags, OTHER
+    all_codes = sorted({int(v) for k, v in ec.consts.items() if not k.startswith('error_control_')})
+    unknown_code = max(all_codes + [0]) + 57
     for m, subname in (('solve', 'solve'), ('solve_t', 'solve_t'), ('_evaluate', 'evaluate')):
         q = f'{FE}.{m}'
         f = Fn(R, q)
-        table, default = _wrapper_code_table(f)
-        for code in table:
-            R.check(code in names_by_code, q, f'code-exists:{code}', f'literal code {code} exists in module error_codes ({names_by_code.get(code)})',
-                    f'the wrapper tests error code {code}, which module error_codes does not define', where=f.fi.where)
-        R.check(default == 'FortranEngineError', q, 'default-branch', 'unhandled codes fall to FortranEngineError', 'no FortranEngineError default for unhandled error codes', where=f.fi.where) \
-            if m != '_evaluate' else None
+        # role: the local compared with error-code literals
+        cands = {}
+        for t in f.tests():
+            for x in ast.walk(t.ast):
+                if isinstance(x, ast.Compare) and isinstance(x.left, ast.Name) and len(x.ops) == 1:
+                    c0 = x.comparators[0]
+                    lits = [c0] if isinstance(c0, ast.Constant) else (list(c0.elts) if isinstance(c0, (ast.Tuple, ast.List, ast.Set)) else [])
+                    if lits and all(isinstance(l_, ast.Constant) and type(l_.value) is int for l_ in lits):
+                        cands[x.left.id] = cands.get(x.left.id, 0) + 1
+                        for l_ in lits:
+                            if l_.value != 0:
+                                R.check(l_.value in names_by_code, q, f'code-exists:{l_.value}', f'literal code {l_.value} exists in module error_codes ({names_by_code.get(l_.value)})',
+                                        f'the wrapper tests error code {l_.value}, which module error_codes does not define', where=f.fi.where)
+        cands = {k: v for k, v in cands.items() if k in f.lf.locals and k not in f.fi.params()}
+        if not cands:
+            raise Unsupported(f'{q}: no local is compared with error-code literals')
+        ecv = max(cands, key=cands.get)
+        # booleans bound by the same construct (the engine's `converged`)
+        co = set()
+        for n in f.cfg.nodes:
+            bound = set(names_bound(n))
+            for (b_, lab) in n.succ:
+                bound |= set(bound_on_edge(f.cfg, n.id, lab))
+            if ecv in bound:
+                co |= {x for x in bound if x != ecv}
+        bools = sorted(x for x in co if any(isinstance(a_, ast.Name) and a_.id == x for t in f.tests() for (a_, _tr) in __import__('fsa.match', fromlist=['nnf_atoms']).nnf_atoms(t.ast, True)))
+        doms = {'errors': ['raise', 'skip', 'ignore', 'replace'], ecv: [0] + all_codes + [unknown_code]}
+        for b_ in bools:
+            doms[b_] = [True, False]
+        fl = Flags(f.cfg, f.fi.params(), domains=doms)
+        ei, ci = fl.idx.get('errors'), fl.idx[ecv]
+        bi = [fl.idx[b_] for b_ in bools]
+        binders = []
+        for n in f.cfg.nodes:
+            if ecv in names_bound(n) or any(ecv in bound_on_edge(f.cfg, n.id, lab) for (_b, lab) in n.succ):
+                binders.append(n)
+        loop_hdrs = [n.id for n in binders if n.kind == 'for']
+
+        def outcome(code, mode):
+            starts = []
+            for n in binders:
+                for s_ in fl.states_at(n.id):
+                    for (q_, lab) in fl.succ[(n.id, s_)]:
+                        s2 = q_[1]
+                        if lab in ('exc', 'raise') or s2[ci][0] != 'c' or s2[ci][2] != code:
+                            continue
+                        if ei is not None and not (s2[ei][0] == 'c' and s2[ei][2] == mode):
+                            continue
+                        if code != 0 and any(s2[i][0] == 'c' and s2[i][2] is True for i in bi):
+                            continue
+                        starts.append(q_)
+            reach = fl.reach(starts, avoid_nodes=loop_hdrs)
+            nodes = {p_[0] for p_ in reach}
+            out = set()
+            for i in nodes:
+                nd = f.cfg.nodes[i]
+                if nd.kind == 'stmt' and isinstance(nd.ast, ast.Raise):
+                    out.add(f.raised(nd) or '?')
+            normal = f.cfg.exit in nodes or any(q_[0] in loop_hdrs for p_ in reach for (q_, _l) in fl.succ.get(p_, []))
+            if normal:
+                out.add('<normal>')
+            return out, nodes, bool(starts)
+
+        default_exc = 'FortranEngineError' if m != '_evaluate' else 'SolutionError'
+        modes = ['raise', 'skip', 'ignore', 'replace'] if ei is not None else [None]
+        got_default = set()
+        for md in modes:
+            o_, _n, any_ = outcome(unknown_code, md)
+            if any_:
+                got_default |= o_
+        R.check(got_default == {default_exc}, q, 'default-branch', f'an unhandled error code surfaces as {default_exc}',
+                f'an error code the wrapper does not know leads to {sorted(got_default)}, expected {default_exc}', where=f.fi.where)
         can = assignable(subname)
         # codes excluded because the wrapper itself rejects the situation before calling the engine
         pre: Set[str] = set()
-        if any(raised_class(r.ast) == 'IndexError' and not any('error_code' in text(a) for (a, _tr, _t) in f.guard_atoms(r.id)) for r in f.raises('IndexError')):
+        if any(f.raised(r) == 'IndexError' and not any(ecv in text(a_) for (a_, _tr, _t) in f.guard_atoms(r.id)) and not any(f.cfg.reaches(bn.id, r.id) for bn in binders)
+               for r in f.raises('IndexError')):
             pre |= {'offset_predates_span', 'offset_postdates_span'}
-        if any(not any('error_code' in text(a) for (a, _tr, _t) in f.guard_atoms(r.id)) for r in f.raises('SolutionError')):
+        if any(not any(f.cfg.reaches(bn.id, r.id) for bn in binders) for r in f.raises('SolutionError')):
             pre.add('pre_existing_non_finite_value')
         for cname in sorted(can):
             if cname not in PY_EXCEPTION_FOR:
@@ -364,21 +439,44 @@ def r4_code_tables(R, unit: FUnit) -> None:
             if cname in pre:
                 R.ok(q, f'{cname} ({code}): the wrapper rejects the situation itself before calling the engine', trivial=True)
                 continue
-            got = table.get(code, (None, default if m != '_evaluate' else 'SolutionError'))[1]
+            acting = {'numerical_error_raise': ['raise'], 'numerical_error_skip': ['skip'], 'pre_existing_non_finite_value': ['raise']}.get(cname, modes)
+            if ei is None:
+                acting = [None]
+            got = set()
+            touched = set()
+            for md in acting:
+                o_, nn_, any_ = outcome(code, md)
+                if any_:
+                    got |= o_
+                    touched |= nn_
             if want is None:
-                R.check(got is None, q, f'code-exception:{cname}', f'{cname} ({code}) raises nothing (status S)', f'{cname} ({code}) raises {got}', where=f.fi.where)
+                R.check(got == {'<normal>'}, q, f'code-exception:{cname}', f'{cname} ({code}) raises nothing (status S)', f'{cname} ({code}) leads to {sorted(got)}', where=f.fi.where)
+                st_s = [s_ for s_ in series_stores(f.cfg, f.lf) if s_.node.id in touched and s_.series == 'status' and enum_value_ref(s_.value) == 'SKIPPED']
+                skipped_flag = any(isinstance(f.cfg.nodes[i].ast, ast.Assign) and enum_value_ref(f.cfg.nodes[i].ast.value) == 'SKIPPED' for i in touched) or \
+                    any(isinstance(x, ast.Attribute) and text(x) == 'SolutionStatus.SKIPPED.value' for i in touched if f.cfg.nodes[i].ast is not None for x in ast.walk(f.cfg.nodes[i].ast))
+                R.check(bool(st_s) or skipped_flag, q, f'code-status:{cname}', f'{cname} ({code}) records status S', f'{cname} ({code}) does not record SolutionStatus.SKIPPED', where=f.fi.where)
                 continue
-            R.check(got == want, q, f'code-exception:{cname}:{got}',
+            R.check(got == {want}, q, f'code-exception:{cname}:{sorted(got)}',
                     f'{cname} ({code}) surfaces as {want}, as in the Python engine',
-                    f'error code {code} ({cname}) surfaces as {got} from {m}() but the pure-Python engine raises {want} in the same situation', where=f.fi.where)
-        # status stores under codes
-        for code, status in ((21, 'ERROR'), (22, 'SKIPPED')):
-            if code in table:
-                cond = table[code][0]
-                modes = [str_eq_test(a) for t in f.tests() if text(t.ast) == cond for a in conj_atoms(t.ast)]
-                want_mode = 'raise' if code == 21 else 'skip'
-                R.check(('errors', want_mode, True) in modes, q, f'code-mode:{code}', f"code {code} is acted on under errors == '{want_mode}'",
-                        f'code {code} is tested as `{cond}`', where=f.fi.where)
+                    f'error code {code} ({cname}) leads to {sorted(got)} from {m}() but the pure-Python engine raises {want} in the same situation', where=f.fi.where)
+            if cname == 'numerical_error_raise':
+                st_e = [s_ for s_ in series_stores(f.cfg, f.lf) if s_.node.id in touched and s_.series == 'status' and enum_value_ref(s_.value) == 'ERROR']
+                R.check(bool(st_e) or m == '_evaluate', q, f'code-status:{cname}', f'{cname} ({code}) records status E before raising', f'{cname} ({code}) does not record SolutionStatus.ERROR',
+                        where=f.fi.where)
+        # a mode-specific code under another mode is not acted on as if it were expected
+        if ei is not None:
+            for cname, own in (('numerical_error_raise', 'raise'), ('numerical_error_skip', 'skip')):
+                if cname not in can or cname not in ec.consts:
+                    continue
+                code = int(ec.consts[cname])
+                got = set()
+                for md in modes:
+                    if md != own:
+                        o_, _n, any_ = outcome(code, md)
+                        if any_:
+                            got |= o_
+                R.check(got == {default_exc}, q, f'code-mode:{code}', f"code {code} is acted on only under errors == '{own}'",
+                        f"code {code} under another errors= mode leads to {sorted(got)}, expected {default_exc}", where=f.fi.where)
 
 
 # ---------------------------------------------------------------------------
